@@ -302,7 +302,9 @@ func goNativeClass(r *rng, v interface{}, cls string) interface{} {
 		}
 		return out
 	case []interface{}:
-		out := make([]interface{}, len(x))
+		// spare capacity: a caller's slice (or one grown by encoding/json) usually has cap > len;
+		// code that appends to it writes into the caller's backing array
+		out := make([]interface{}, len(x), len(x)+1+r.intn(4))
 		for i, e := range x {
 			out[i] = goNativeClass(r, e, cls)
 		}
